@@ -86,6 +86,8 @@ Definition encode_binary (bs : bytes) : bytes :=
 (* ---- decodeBinaryValue ---- *)
 Definition get_binary_len (tag : Z) (r : bytes) : result (Z * bytes) :=
   if gbinaryShortTag tag then Ok (wrap 8 (tag - g_binaryShortLenTagMin), r)
+  else if gbinaryMiddleTag tag then
+    do (bf, r') <- read_full 1 r ;; Ok (wrap 8 (tag - g_binaryMiddleLenTagMin) * 256 + be_val bf, r')
   else do (bf, r') <- read_full 2 r ;; Ok (be_val bf, r').
 
 (* io.ReadFull whose EOF errors are tolerated: as many bytes as there are, up to n *)
